@@ -18,7 +18,9 @@ def gen_case(ctx, rng, i, tag='random'):
     from harness.check import draw_env
     pol, knobs = draw_env(rng, tcp=True)
     children = [rng.choice(STATES) for _ in range(rng.randrange(0, 5))]
-    stop = rng.choice(['terminate', 'terminate-noforce', 'sigterm'])
+    # 'terminate-fast': the graceful request is followed by the forced stop (SIGTERM) after a short timeout, i.e. while the
+    # server is still in the middle of its own clean-up (a second stop request overlapping the first)
+    stop = rng.choice(['terminate', 'terminate-noforce', 'sigterm', 'terminate-fast'])
     fault = None
     during_start = rng.random() < 0.4
     if during_start:
@@ -30,6 +32,7 @@ def gen_case(ctx, rng, i, tag='random'):
                                          '_ConnectionBase.recv', 'PipeEndpoint.send', 'PipeEndpoint.close']),
                  'occ': rng.randrange(1, 12)}
     return {'kind': 'server', 'children': children, 'stop': stop, 'fault': fault, 'during_start': during_start,
+            'stop_timeout': rng.choice([0, 0.01, 0.05, 0.3]),
             'policy': pol, 'knobs': knobs, 'sched_seed': ctx.case_seed(tag, i)}
 
 
@@ -94,6 +97,8 @@ class Run:
         t0 = s.now
         if c['stop'].startswith('terminate'):
             kwt = {'timeout': 5, 'force': False} if c['stop'] == 'terminate-noforce' else {}
+            if c['stop'] == 'terminate-fast':
+                kwt = {'timeout': c.get('stop_timeout', 0.05), 'force': True}
             r = lib.call_with_deadline(srv.terminate, 300.0, **kwt)
             self.info['stop'] = [r[0], lib.safe_repr(r[1])]
             if r[0] == 'hung':
